@@ -386,6 +386,34 @@ def check_propagate(ctx):
         R.follow(ctx, inst, body, pwb, [x for x in ext], "the retries returned by process_write_batch are appended to shard_retries", b_desc="shard_retries.extend")
 
 
+def check_metadata_commit(ctx):
+    """two metadata slots: generation g + 1 always goes to the slot that does not hold the last durable generation g. That
+    needs the in-memory generation to advance only once the new copy is written and flushed; a failed attempt must leave
+    it untouched so that the retry targets the same (stale) slot"""
+    inst = "C09.metadata-commit"
+    b = ctx.fn("DiskIO::write_store_metadata", inst)
+    if b is None:
+        return
+    adv = ctx.sites(b, R.call("Metadata::advance_generation"), inst, exact=1)
+    ws = ctx.sites(b, R.call("DiskIO::write_sectors_sync"), inst, exact=1)
+    fl = ctx.sites(b, R.call("DiskIO::flush"), inst, exact=1)
+    for a in adv:
+        r = R.recv_expr(b, b.nodes[a], 0)
+        ctx.check(not r.has_arg(idx=2), inst, "PROVENANCE", b.path, "the generation is advanced on a local copy, not on the store-wide metadata", b.where(a), {"receiver": r.show()[:80]})
+    stores = [n.id for n in b.nodes if n.kind == "assign" and n.ev["dst"]["l"] == 2 and n.ev["dst"]["p"] and n.ev["dst"]["p"][0] == "*"]
+    ctx.check(len(stores) == 1, inst, "anchor", b.path, "one commit of the advanced metadata into the caller's copy (found %d)" % len(stores), None)
+    R.dom(ctx, inst, b, fl, stores, "the in-memory metadata is committed only after the new copy was flushed", a_desc="flush")
+    R.guard(ctx, inst, b, stores, R.guard_edges_for_call(b, fl, "Ok"), "and only on the Ok edge of the flush")
+    R.guard(ctx, inst, b, stores, R.guard_edges_for_call(b, ws, "Ok"), "and of the write")
+    # slot choice from the *advanced* generation's parity
+    for w in ws:
+        s_ = R.arg_expr(b, b.nodes[w], 1)
+        ok = s_.has_const(name="FEOX_METADATA_BLOCK") or s_.has_const(name="FEOX_METADATA_BACKUP_BLOCK") or s_.k == "local"
+        ctx.check(ok, inst, "PIN", b.path, "the slot is FEOX_METADATA_BLOCK or FEOX_METADATA_BACKUP_BLOCK", b.where(w), nontrivial=False)
+    par = A.pred_switches(b, lambda e: e.k == "bin" and e.extra == "Eq" and any(x.k == "bin" and x.extra == "BitAnd" for x in e.walk()) and e.has_call("Metadata::generation"))
+    ctx.check(len(par) == 1, inst, "PIN", b.path, "the slot is chosen by the parity of the new generation", None)
+
+
 def check_scrub(ctx):
     from rules.common import check_scrub_release_clears_group
     check_scrub_release_clears_group(ctx, "C09.contain/scrub-release")
@@ -408,6 +436,7 @@ def check_scrub(ctx):
 
 
 def check(ctx):
+    check_metadata_commit(ctx)
     check_scrub(ctx)
     check_nodiscard(ctx)
     check_arms(ctx)
